@@ -74,7 +74,9 @@ def handle (cfg : Cfg) (op : String) (args : List String) : Option Verdict :=
     let need := (cs.length * bitsDig radix + w - 1) / w
     let sp := if radix < 2 ∨ radix > 64 then ["err"] else
       match v with
-      | some n => [fmtIntNF w (if neg then -(n : Int) else n)] ++ (if need > cfg.cap then ["err"] else [])
+      -- a numeral whose value needs the whole capacity may be refused: the accumulation multiplies by the radix with one digit of
+      -- head-room (bn_mul_dig grows to used + 1), so the precision error is admitted from need + 1 > capacity on
+      | some n => [fmtIntNF w (if neg then -(n : Int) else n)] ++ (if need + 1 > cfg.cap then ["err"] else [])
       | none => [m]     -- malformed numeral: behaviour is the model's (stops at the first bad character)
     some { model := m, spec := sp }
   | _, _ => none
